@@ -109,3 +109,9 @@ Qed.
 Lemma alg_texts_known_texts : forall d cat name e,
   str_is_blank (lookup_name cat name) = false -> db_get d cat (lookup_name cat name) = Some e -> alg_texts d cat name = Some (known_texts e).
 Proof. intros d cat name e Hb Hg. unfold alg_texts. rewrite Hb, Hg. reflexivity. Qed.
+
+(* the test that selects the wildcard lookup name is the same expression at both sites (text: output_algorithm, JSON: fetch_notes), and it is the model's;
+   the translator also matches the rewrite itself ("<name up to the last dash>-*") literally at both sites *)
+Lemma tie_gss_lookup : forall cat name,
+  (String.eqb cat "kex" && starts_with "gss-" name) = src_gss_lookup_text cat name /\ (String.eqb cat "kex" && starts_with "gss-" name) = src_gss_lookup_json cat name.
+Proof. intros. split; reflexivity. Qed.
